@@ -19,7 +19,9 @@ VARIABLES hist, gs
 
 L(c, f, g, kd) == [c |-> c, f |-> f, g |-> g, kd |-> kd]
 \* phase: "start" (a file may begin), "ppp" (after ---), "body" (in hunks)
-GInit == [ph |-> "start", f |-> 0, nh |-> 0, old |-> 0, new |-> 0, any |-> FALSE, titled |-> FALSE]
+\* ones: one-line sections ("Only in", "Binary files") emitted so far - at most two per history, which keeps the
+\* bounded model small without losing an adjacency (before / between / after compared files, two in a row)
+GInit == [ph |-> "start", f |-> 0, nh |-> 0, old |-> 0, new |-> 0, any |-> FALSE, titled |-> FALSE, ones |-> 0]
 
 Emit(line, s2) == Len(hist) < MaxLen /\ hist' = Append(hist, line) /\ gs' = s2
 
@@ -46,8 +48,11 @@ NewLine ==
   /\ gs.ph = "body" /\ gs.nh >= 1 /\ gs.new < MaxNew
   /\ \E c \in {"plus"} \cup (Ambig \cap {"plus3"}) : Emit(L(c, 0, 0, ""), [gs EXCEPT !.new = @ + 1, !.any = TRUE])
 OnlyIn ==      \* diff -r: "Only in <dir>: <name>", a one-line section between the compared files
-  /\ Titled /\ FileDone(gs) /\ ~gs.titled
-  /\ \E f \in 1..NF : Emit(L("onlyin", f, f, "onlyin"), [gs EXCEPT !.ph = "start", !.nh = 0])
-GNext == OnlyIn \/ Title \/ MinusHeader \/ PlusHeader \/ HunkHeader \/ OldLine \/ NewLine
+  /\ Titled /\ FileDone(gs) /\ ~gs.titled /\ gs.ones < 2
+  /\ \E f \in 1..NF : Emit(L("onlyin", f, f, "onlyin"), [gs EXCEPT !.ph = "start", !.nh = 0, !.ones = @ + 1])
+BinaryDiffer ==   \* diff -r: "Binary files a/x and b/x differ", a one-line section without a "diff" line of its own
+  /\ Titled /\ FileDone(gs) /\ ~gs.titled /\ gs.ones < 2
+  /\ \E f \in 1..NF : Emit(L("binary", f, f, "dubin"), [gs EXCEPT !.ph = "start", !.nh = 0, !.ones = @ + 1])
+GNext == BinaryDiffer \/ OnlyIn \/ Title \/ MinusHeader \/ PlusHeader \/ HunkHeader \/ OldLine \/ NewLine
 Complete(s) == FileDone(s)
 =============================================================================
